@@ -74,10 +74,14 @@ class CGraph(engine.Graph):
     def rule_name(s, e):
         if e.phony: return 'phony'
         return getattr(e, 'rname', None) or 'r%d' % e.idx
-    def is_split(s): return False          # the cleaner scenarios keep one manifest file
+    # csplit = k: the statements from position k on live in part.ninja, pulled in by `subninja`; that file RE-DECLARES the shared rules
+    # its statements use (a same-named rule object in the child scope): `-t clean -r NAME` goes by the rule's name and must reach them too
+    def in_cpart(s, e): return getattr(s, 'csplit', None) is not None and s.edges.index(e) >= s.csplit
+    def is_split(s): return getattr(s, 'csplit', None) is not None
     def manifest(s, part=False):
         L = []
-        for p, d in sorted(s.pools.items()): L += ['pool %s' % p, '  depth = %d' % d]
+        if not part:
+            for p, d in sorted(s.pools.items()): L += ['pool %s' % p, '  depth = %d' % d]
         def binds(e, ind):
             B = []
             if e.restat: B.append('restat = 1')
@@ -88,7 +92,7 @@ class CGraph(engine.Graph):
             return [ind + b for b in B]
         seen = set()
         for e in s.edges:
-            if e.phony: continue
+            if e.phony or s.in_cpart(e) != part: continue
             rn = s.rule_name(e)
             if getattr(e, 'rname', None):
                 if rn in seen: continue
@@ -96,8 +100,11 @@ class CGraph(engine.Graph):
                 L += ['rule ' + rn, '  command = %s $out' % rn]
             else:
                 L += ['rule ' + rn, '  command = ' + e.cmd()] + binds(e, '  ')
-        for r in getattr(s, 'extra_rules', []): L += ['rule ' + r, '  command = ' + r]
+        if not part:
+            for r in getattr(s, 'extra_rules', []):
+                if r not in seen: L += ['rule ' + r, '  command = ' + r]
         for e in s.edges:
+            if s.in_cpart(e) != part: continue
             outs = ' '.join(e.outs[:len(e.outs) - e.n_imp_out])
             if e.n_imp_out: outs += ' | ' + ' '.join(e.outs[len(e.outs) - e.n_imp_out:])
             l = 'build %s: %s' % (outs, s.rule_name(e))
@@ -109,7 +116,8 @@ class CGraph(engine.Graph):
             if getattr(e, 'rname', None): L += binds(e, '  ')
             if e.pool: L.append('  pool = ' + e.pool)
             if e.dyndep: L.append('  dyndep = ' + e.dyndep)
-        if s.defaults: L.append('default ' + ' '.join(s.defaults))
+        if not part and s.is_split(): L.append('subninja part.ninja')
+        if not part and s.defaults: L.append('default ' + ' '.join(s.defaults))
         return '\n'.join(L) + '\n'
     def declared_rules(s):
         return {'phony'} | {s.rule_name(e) for e in s.edges if not e.phony} | set(getattr(s, 'extra_rules', []))
@@ -141,6 +149,14 @@ def gen_clean_graph(rnd, nedges=None, feat=None):
         if rnd.random() < 0.8: g.sources['hdr800'] = 'declared-header'
         if ne and rnd.random() < 0.7: rnd.choice(ne).imp.append('hdr800')
     g.extra_rules = ['unused'] if rnd.random() < 0.2 else []
+    # a suffix of the statements moved into a subninja file that re-declares the shared rules it uses (all its non-phony statements
+    # must use a shared rule, and the top-level file declares every such name as well, if need be as an otherwise unused rule)
+    cands = [k for k in range(1, len(g.edges)) if all(e.phony or getattr(e, 'rname', None) for e in g.edges[k:]) and any(not e.phony for e in g.edges[k:])]
+    if cands and rnd.random() < 0.5:
+        g.csplit = rnd.choice(cands)
+        top = {e.rname for e in g.edges[:g.csplit] if not e.phony and getattr(e, 'rname', None)}
+        for e in g.edges[g.csplit:]:
+            if not e.phony and e.rname not in top and e.rname not in g.extra_rules: g.extra_rules.append(e.rname)
     return g
 
 class Loaded:
@@ -366,6 +382,7 @@ def blocks(h, bs):
     """[(step, Build, pre)] for build and clean steps; pre = dict(files={path: content}, dirs=set, log=set of names)
     right before the step"""
     files = {'build.ninja': h.g0.manifest()}
+    if h.g0.is_split(): files['part.ninja'] = h.g0.manifest(part=True)
     files.update(h.g0.sources)
     dirs = set(); log = set(); res = []; i = 0
     for st in h.steps:
